@@ -392,6 +392,14 @@ def check_property(pid, tier, seed):
     if "custom" in spec:
         spec["custom"](pid, tier, seed, cov, violations, notes, sys.modules[__name__])
 
+    if harness_panics and pid == "C14":
+        # Outside recorded calls the drivers use the library only on valid input (building operands: shifts, powers, sums of
+        # small values) and never panic on the unchanged tree, where they are deterministic.  A panic there is a failure
+        # without a documented failure case, which is what C14 is about.
+        rp = os.path.join(rdir, "harness-panic-outside-recorded-call.log")
+        open(rp, "w").write(harness_panics[0])
+        violations.append(("the library panicked on valid input while a driver was building its operands (no documented failure case): %s"
+                           % harness_panics[0].strip().splitlines()[-1][:200], rp))
     if harness_panics and not violations:
         # nothing in the recorded prefixes explains it: tool trouble, not a verdict
         raise ToolError("the harness itself panicked outside a recorded call (driver bug, not a verdict):\n" + harness_panics[0])
